@@ -123,25 +123,43 @@ Fixpoint be_bytes (n : nat) (z : Z) : list N :=                         (* n low
 
 Definition loc := N.
 
+(* Contract storage as seen through StateDB.GetState / SetState: a finite map
+   from 256-bit keys to 256-bit values (both as numbers; absent = 0), keys kept
+   in the order of their first write.  ProofsSpec.v shows that everything proved
+   with it holds for ANY implementation of the two-operation interface that
+   satisfies get-after-set. *)
+Definition store := list (Z * Z).
+Fixpoint st_get (s : store) (k : Z) : Z :=
+  match s with
+  | [] => 0
+  | (k', v) :: r => if k' =? k then v else st_get r k
+  end.
+Fixpoint st_set (s : store) (k v : Z) : store :=
+  match s with
+  | [] => [(k, v)]
+  | (k', v') :: r => if k' =? k then (k', v) :: r else (k', v') :: st_set r k v
+  end.
+
 Record cfg := mkCfg {
   heap : loc -> Z;       (* value of every *big.Int cell *)
   next : loc;            (* allocation counter: cells >= next do not exist yet *)
   stack : list loc;      (* Stack.data, TOP FIRST *)
   pool : list loc;       (* intPool.pool.data, TOP FIRST (get() takes the head) *)
-  mem : list N           (* Memory.store *)
+  mem : list N;          (* Memory.store *)
+  stor : store           (* the executing contract's storage as StateDB presents it *)
 }.
 
 Definition upd (h : loc -> Z) (l : loc) (v : Z) : loc -> Z :=
   fun l' => if N.eqb l' l then v else h l'.
 
 Definition write (c : cfg) (l : loc) (v : Z) : cfg :=
-  mkCfg (upd (heap c) l v) (next c) (stack c) (pool c) (mem c).
+  mkCfg (upd (heap c) l v) (next c) (stack c) (pool c) (mem c) (stor c).
 Definition alloc (c : cfg) (v : Z) : loc * cfg :=                      (* new(big.Int) / big.NewInt *)
-  (next c, mkCfg (upd (heap c) (next c) v) (next c + 1)%N (stack c) (pool c) (mem c)).
+  (next c, mkCfg (upd (heap c) (next c) v) (next c + 1)%N (stack c) (pool c) (mem c) (stor c)).
 Definition pop (c : cfg) : option (loc * cfg) :=                       (* Stack.pop; None = panic *)
   match stack c with
   | [] => None
-  | l :: r => Some (l, mkCfg (heap c) (next c) r (pool c) (mem c))
+  | l :: r => Some (l, mkCfg (heap c) (next c) r (pool c) (mem c) (stor c))
   end.
 Definition peek (c : cfg) : option (loc * cfg) :=
   match stack c with
@@ -149,25 +167,27 @@ Definition peek (c : cfg) : option (loc * cfg) :=
   | l :: _ => Some (l, c)
   end.
 Definition push (c : cfg) (l : loc) : cfg :=
-  mkCfg (heap c) (next c) (l :: stack c) (pool c) (mem c).
+  mkCfg (heap c) (next c) (l :: stack c) (pool c) (mem c) (stor c).
+Definition set_stor (c : cfg) (sr : store) : cfg :=
+  mkCfg (heap c) (next c) (stack c) (pool c) (mem c) sr.
 Definition set_mem (c : cfg) (m : list N) : cfg :=
-  mkCfg (heap c) (next c) (stack c) (pool c) m.
+  mkCfg (heap c) (next c) (stack c) (pool c) m (stor c).
 
 Definition poolLimit : nat := 256.
 
 Definition pool_get (c : cfg) : loc * cfg :=                           (* intPool.get *)
   match pool c with
   | [] => alloc c 0
-  | l :: r => (l, mkCfg (heap c) (next c) (stack c) r (mem c))
+  | l :: r => (l, mkCfg (heap c) (next c) (stack c) r (mem c) (stor c))
   end.
 Definition pool_get_zero (c : cfg) : loc * cfg :=                      (* intPool.getZero *)
   match pool c with
   | [] => alloc c 0
-  | l :: r => (l, mkCfg (upd (heap c) l 0) (next c) (stack c) r (mem c))
+  | l :: r => (l, mkCfg (upd (heap c) l 0) (next c) (stack c) r (mem c) (stor c))
   end.
 Definition pool_put (c : cfg) (ls : list loc) : cfg :=                 (* intPool.put(is...) *)
   if Nat.ltb poolLimit (length (pool c)) then c
-  else mkCfg (heap c) (next c) (stack c) (rev ls ++ pool c) (mem c).
+  else mkCfg (heap c) (next c) (stack c) (rev ls ++ pool c) (mem c) (stor c).
 
 (* memory helpers (Memory.Get / Set32 / store[i]= / Resize) *)
 Definition mem_get (m : list N) (off size : Z) : option (list N) :=
@@ -209,6 +229,7 @@ Inductive pexp :=                           (* expressions of type *big.Int *)
 | PLet (v : N) (e body : pexp)              (* inlined call: parameter v bound to e *)
 | PIf (c : cond) (a b : pexp)               (* inlined "if c { return a }; return b" *)
 | PExp (b e : pexp)                         (* math.Exp(b, e) *)
+| PStackAt (i : iexp)                       (* st.data[i] (index from the bottom) *)
 with iexp :=                                (* machine integers *)
 | IConst (z : Z)
 | IVar (v : N)
@@ -225,13 +246,29 @@ with iexp :=                                (* machine integers *)
 | IBit (x : pexp) (i : iexp)
 | IByte (x : pexp) (pad n : iexp)           (* math.Byte(x, pad, n) *)
 | IMemLen                                   (* memory.Len() *)
+| IStackLen                                 (* st.len() *)
+| ICodeLen                                  (* len(contract.Code) *)
+| IDiv (t : ity) (a b : iexp)               (* a / b (truncated) *)
+| IMod (t : ity) (a b : iexp)               (* a % b *)
+| IShr (a b : iexp)                         (* a >> b on an unsigned word *)
+| IBitsLen (x : pexp)                       (* len(x.Bits()) *)
+| IWordAt (x : pexp) (i : iexp)             (* x.Bits()[i] *)
+| ILet (v : N) (e body : iexp)              (* inlined call: integer parameter / local v bound to e *)
+| IIf (c : cond) (a b : iexp)               (* inlined "if c { return a }; return b" *)
 with cond :=
 | CRel (r : rel) (a b : iexp)
 | CAnd (a b : cond)                         (* short-circuit *)
 | COr (a b : cond)
 | CNot (a : cond)
 with bexp :=
-| BMemGet (off size : iexp).                (* memory.Get(off, size) *)
+| BMemGet (off size : iexp)                 (* memory.Get(off, size) *)
+| BHashBytes (h : hexp)                     (* h.Bytes() of a common.Hash *)
+| BCodeSlice (a b : iexp)                   (* contract.Code[a:b] *)
+| BRightPad (b : bexp) (n : iexp)           (* common.RightPadBytes(b, n) *)
+with hexp :=                                (* expressions of type common.Hash (a 256-bit number) *)
+| HVar (v : N)
+| HOfBig (x : pexp)                         (* common.BigToHash(x) *)
+| HGetState (k : hexp).                     (* evm.StateDB.GetState(contract.Address(), k) *)
 
 Inductive stmt :=
 | SSkip
@@ -245,22 +282,24 @@ Inductive stmt :=
 | SReturn
 | SMemSet32 (off : iexp) (v : pexp)         (* memory.Set32(off, v) *)
 | SMemStore8 (off : iexp) (v : iexp)        (* memory.store[off] = v *)
-(* hand-modelled closures of instructions.go / stack.go (not translated) *)
-| SPushCode (n : N)                         (* makePush(n, n) *)
-| SDup (n : N)                              (* stack.dup(pool, n) *)
-| SSwap (n : N).                            (* stack.swap(n) *)
+| SDefH (v : N) (e : hexp)                  (* v := e  (a common.Hash) *)
+| SSetState (k v : hexp)                    (* evm.StateDB.SetState(contract.Address(), k, v) *)
+| SStackSwap (i j : iexp).                  (* st.data[i], st.data[j] = st.data[j], st.data[i] *)
 
 (* ---- semantics ----------------------------------------------------------- *)
-Record env := mkEnv { pv : list (N * loc); iv : list (N * Z) }.
-Definition env0 : env := mkEnv [] [].
+Record env := mkEnv { pv : list (N * loc); iv : list (N * Z); hv : list (N * Z) }.
+Definition env0 : env := mkEnv [] [] [].
 
 Fixpoint lookup {A} (l : list (N * A)) (v : N) : option A :=
   match l with
   | [] => None
   | (k, a) :: r => if N.eqb k v then Some a else lookup r v
   end.
-Definition bind_p (en : env) (v : N) (l : loc) : env := mkEnv ((v, l) :: pv en) (iv en).
-Definition bind_i (en : env) (v : N) (z : Z) : env := mkEnv (pv en) ((v, z) :: iv en).
+Definition bind_p (en : env) (v : N) (l : loc) : env := mkEnv ((v, l) :: pv en) (iv en) (hv en).
+Definition bind_i (en : env) (v : N) (z : Z) : env := mkEnv (pv en) ((v, z) :: iv en) (hv en).
+Definition bind_h (en : env) (v : N) (z : Z) : env := mkEnv (pv en) (iv en) ((v, z) :: hv en).
+(* common.BigToHash(b) = BytesToHash(b.Bytes()): the last 32 bytes of |b| *)
+Definition hash_of_big (x : Z) : Z := Z.land (Z.abs x) tt256m1.
 
 Definition wrap (t : ity) (z : Z) : Z :=
   match t with U64 => wrap_u64 z | I64 => wrap_i64 z | U8 => wrap_u8 z end.
@@ -273,9 +312,29 @@ Definition rel_sem (r : rel) (a b : Z) : bool :=
 Notation "'do' x <- e ; k" := (match e with Some x => k | None => None end)
   (at level 200, x pattern, e at level 100, k at level 200, right associativity).
 
+(* the program counter *pc is an integer variable of the environment *)
+Definition pcvar : N := 1000000.
+
+(* words of a big.Int (64-bit platform) *)
+Definition bits_len (x : Z) : Z := (bitlen_of x + 63) / 64.
+Definition word_at (x i : Z) : Z := (Z.abs x / 2 ^ (64 * i)) mod tt64.
+
+Definition set_nth {A} (l : list A) (k : nat) (v : A) : list A := firstn k l ++ v :: skipn (S k) l.
+(* position in the top-first list of the data index i (from the bottom) *)
+Definition data_pos (n : nat) (i : Z) : option nat :=
+  if (i <? 0) || (Z.of_nat n <=? i) then None else Some (n - 1 - Z.to_nat i)%nat.
+
+Section Eval.
+Variable code : list N.     (* contract.Code *)
+
 Fixpoint eval_p (e : pexp) (en : env) (c : cfg) {struct e} : option (loc * cfg) :=
   match e with
   | PVar v => do l <- lookup (pv en) v; Some (l, c)
+  | PStackAt i =>
+    do (k, c1) <- eval_i i en c;
+    do p <- data_pos (length (stack c1)) k;
+    do l <- nth_error (stack c1) p;
+    Some (l, c1)
   | PGlob g => Some (g, c)
   | PNew i => do (z, c1) <- eval_i i en c; Some (alloc c1 z)
   | PPop => pop c
@@ -350,6 +409,26 @@ with eval_i (e : iexp) (en : env) (c : cfg) {struct e} : option (Z * cfg) :=
     do (k, c3) <- eval_i n en c2;
     Some (byte_of (heap c3 lx) p k, c3)
   | IMemLen => Some (Z.of_nat (length (mem c)), c)
+  | IStackLen => Some (Z.of_nat (length (stack c)), c)
+  | ICodeLen => Some (Z.of_nat (length code), c)
+  | IDiv t a b =>
+    do (x, c1) <- eval_i a en c; do (y, c2) <- eval_i b en c1;
+    if y =? 0 then None else Some (wrap t (Z.quot x y), c2)
+  | IMod t a b =>
+    do (x, c1) <- eval_i a en c; do (y, c2) <- eval_i b en c1;
+    if y =? 0 then None else Some (wrap t (Z.rem x y), c2)
+  | IShr a b =>
+    do (x, c1) <- eval_i a en c; do (y, c2) <- eval_i b en c1;
+    if y <? 0 then None else Some (Z.shiftr x y, c2)
+  | IBitsLen x => do (lx, c1) <- eval_p x en c; Some (bits_len (heap c1 lx), c1)
+  | IWordAt x i =>
+    do (lx, c1) <- eval_p x en c;
+    do (k, c2) <- eval_i i en c1;
+    if (k <? 0) || (bits_len (heap c2 lx) <=? k) then None else Some (word_at (heap c2 lx) k, c2)
+  | ILet v e1 body => do (z, c1) <- eval_i e1 en c; eval_i body (bind_i en v z) c1
+  | IIf cd a b =>
+    do (t, c1) <- eval_c cd en c;
+    if t then eval_i a en c1 else eval_i b en c1
   end
 with eval_c (e : cond) (en : env) (c : cfg) {struct e} : option (bool * cfg) :=
   match e with
@@ -365,6 +444,20 @@ with eval_b (e : bexp) (en : env) (c : cfg) {struct e} : option (list N * cfg) :
     do (s, c2) <- eval_i size en c1;
     do bs <- mem_get (mem c2) o s;
     Some (bs, c2)
+  | BHashBytes h => do (x, c1) <- eval_h h en c; Some (be_bytes 32 x, c1)
+  | BCodeSlice a b =>
+    do (x, c1) <- eval_i a en c; do (y, c2) <- eval_i b en c1;
+    if (0 <=? x) && (x <=? y) && (y <=? Z.of_nat (length code))
+    then Some (firstn (Z.to_nat (y - x)) (skipn (Z.to_nat x) code), c2) else None
+  | BRightPad b n =>
+    do (bs, c1) <- eval_b b en c; do (k, c2) <- eval_i n en c1;
+    Some (bs ++ repeat 0%N (Z.to_nat k - length bs), c2)
+  end
+with eval_h (e : hexp) (en : env) (c : cfg) {struct e} : option (Z * cfg) :=
+  match e with
+  | HVar v => do z <- lookup (hv en) v; Some (z, c)
+  | HOfBig x => do (lx, c1) <- eval_p x en c; Some (hash_of_big (heap c1 lx), c1)
+  | HGetState k => do (x, c1) <- eval_h k en c; Some (st_get (stor c1) x, c1)
   end.
 
 Fixpoint eval_ps (es : list pexp) (en : env) (c : cfg) : option (list loc * cfg) :=
@@ -376,21 +469,14 @@ Fixpoint eval_ps (es : list pexp) (en : env) (c : cfg) : option (list loc * cfg)
     Some (l :: ls, c2)
   end.
 
-(* code bytes of a PUSHn at pc, right padded *)
-Definition get_op (code : list N) (pc : N) : N := nth (N.to_nat pc) code 0%N.
-Definition push_bytes (code : list N) (pc : N) (n : N) : list N :=
-  let start := Nat.min (N.to_nat pc + 1) (length code) in
-  let bs := firstn (N.to_nat n) (skipn start code) in
-  bs ++ repeat 0%N (N.to_nat n - length bs).
-
 (* result of a statement: (returned?, environment, configuration) *)
-Fixpoint exec (code : list N) (pc : N) (s : stmt) (en : env) (c : cfg) {struct s}
+Fixpoint exec (s : stmt) (en : env) (c : cfg) {struct s}
   : option (bool * env * cfg) :=
   match s with
   | SSkip => Some (false, en, c)
   | SSeq a b =>
-    do (r, en1, c1) <- exec code pc a en c;
-    if r then Some (true, en1, c1) else exec code pc b en1 c1
+    do (r, en1, c1) <- exec a en c;
+    if r then Some (true, en1, c1) else exec b en1 c1
   | SDefP v e => do (l, c1) <- eval_p e en c; Some (false, bind_p en v l, c1)
   | SDefI v e => do (z, c1) <- eval_i e en c; Some (false, bind_i en v z, c1)
   | SDo e => do (_, c1) <- eval_p e en c; Some (false, en, c1)
@@ -398,7 +484,7 @@ Fixpoint exec (code : list N) (pc : N) (s : stmt) (en : env) (c : cfg) {struct s
   | SPut es => do (ls, c1) <- eval_ps es en c; Some (false, en, pool_put c1 ls)
   | SIf cd a b =>
     do (t, c1) <- eval_c cd en c;
-    if t then exec code pc a en c1 else exec code pc b en c1
+    if t then exec a en c1 else exec b en c1
   | SReturn => Some (true, en, c)
   | SMemSet32 off v =>
     do (o, c1) <- eval_i off en c;
@@ -410,31 +496,38 @@ Fixpoint exec (code : list N) (pc : N) (s : stmt) (en : env) (c : cfg) {struct s
     do (b, c2) <- eval_i v en c1;
     do m <- mem_store8 (mem c2) o b;
     Some (false, en, set_mem c2 m)
-  | SPushCode n =>
-    let '(l, c1) := pool_get c in
-    Some (false, en, push (write c1 l (be_to_Z (push_bytes code pc n))) l)
-  | SDup n =>
-    (* st.push(pool.get().Set(st.data[st.len()-n])) *)
-    match nth_error (stack c) (N.to_nat n - 1) with
-    | None => None
-    | Some src => if (n =? 0)%N then None else
-      let '(l, c1) := pool_get c in
-      Some (false, en, push (write c1 l (heap c1 src)) l)
-    end
-  | SSwap n =>
-    (* st.data[len-n], st.data[len-1] = st.data[len-1], st.data[len-n] *)
-    match stack c, nth_error (stack c) (N.to_nat n - 1) with
-    | top :: _, Some other =>
-      if (n =? 0)%N then None else
-      let st1 := firstn (N.to_nat n - 1) (stack c) ++ top :: skipn (N.to_nat n) (stack c) in
-      let st2 := match st1 with [] => [] | _ :: r => other :: r end in
-      Some (false, en, mkCfg (heap c) (next c) st2 (pool c) (mem c))
-    | _, _ => None
-    end
+  | SDefH v e => do (z, c1) <- eval_h e en c; Some (false, bind_h en v z, c1)
+  | SSetState k v =>
+    do (x, c1) <- eval_h k en c;
+    do (y, c2) <- eval_h v en c1;
+    Some (false, en, set_stor c2 (st_set (stor c2) x y))
+  | SStackSwap i j =>
+    do (x, c1) <- eval_i i en c;
+    do (y, c2) <- eval_i j en c1;
+    do p <- data_pos (length (stack c2)) x;
+    do q <- data_pos (length (stack c2)) y;
+    do lp <- nth_error (stack c2) p;
+    do lq <- nth_error (stack c2) q;
+    Some (false, en, mkCfg (heap c2) (next c2) (set_nth (set_nth (stack c2) p lq) q lp) (pool c2) (mem c2) (stor c2))
   end.
 
+End Eval.
+
+(* code bytes of a PUSHn at pc, right padded *)
+Definition get_op (code : list N) (pc : N) : N := nth (N.to_nat pc) code 0%N.
+Definition push_bytes (code : list N) (pc : N) (n : N) : list N :=
+  let start := Nat.min (N.to_nat pc + 1) (length code) in
+  let bs := firstn (N.to_nat n) (skipn start code) in
+  bs ++ repeat 0%N (N.to_nat n - length bs).
+
+(* a body runs with *pc bound to the current program counter; it may assign it (PUSHn) *)
+Definition env_pc (pc : N) : env := bind_i env0 pcvar (Z.of_N pc).
+Definition run_body_pc (code : list N) (pc : N) (s : stmt) (c : cfg) : option (cfg * N) :=
+  do (_, en, c1) <- exec code s (env_pc pc) c;
+  do z <- lookup (iv en) pcvar;
+  Some (c1, Z.to_N z).
 Definition run_body (code : list N) (pc : N) (s : stmt) (c : cfg) : option cfg :=
-  do (_, _, c1) <- exec code pc s env0 c; Some c1.
+  do (_, _, c1) <- exec code s (env_pc pc) c; Some c1.
 
 (* ======================================================================= *)
 (** * 3. The interpreter loop (EVMInterpreter.Run)                          *)
@@ -502,7 +595,18 @@ Definition memory_gas_cost (memlen : N) (last : N) (new_size : N) : option (N * 
     else Some (0, last).
 
 (* operation.dynamicGas by function name: None = unsupported, Some None = error *)
-Definition dyn_gas_fn (name : string) (s : istate) (memory_size : N) : option (option (N * N)) :=
+(* gasSStoreEIP2200 without its refund counter: the cost of writing v over the
+   current value cur of a slot whose committed value is orig *)
+Definition sstore_gas (orig cur v : Z) : N :=
+  if (cur =? v)%Z then 800                                   (* SstoreNoopGas *)
+  else if (orig =? cur)%Z then (if (orig =? 0)%Z then 20000   (* SstoreInitGas *)
+                               else 5000)                     (* SstoreCleanGas *)
+  else 800.                                                   (* SstoreDirtyGas *)
+Definition sstore_sentry : N := 2300.
+
+(* gas1 = contract.Gas after the static charge.  The account's committed storage
+   is empty in every run considered here (fresh state): orig = 0. *)
+Definition dyn_gas_fn (name : string) (s : istate) (gas1 : N) (memory_size : N) : option (option (N * N)) :=
   let c := i_cfg s in
   if String.eqb name "pureMemoryGascost" then
     Some (memory_gas_cost (N.of_nat (length (mem c))) (i_memcost s) memory_size)
@@ -510,25 +614,24 @@ Definition dyn_gas_fn (name : string) (s : istate) (memory_size : N) : option (o
     (* expByteLen := (stack.data[len-2].BitLen() + 7) / 8; gas = expByteLen*ExpByte + ExpGas *)
     let bl := Z.to_N (bitlen_of (back c 1)) in
     Some (Some (((bl + 7) / 8 * 50 + 10) mod two64, i_memcost s))
+  else if String.eqb name "gasSStoreEIP2200" then
+    if gas1 <=? sstore_sentry then Some None
+    else
+      let current := st_get (stor c) (hash_of_big (back c 0)) in
+      Some (Some (sstore_gas 0 current (hash_of_big (back c 1)), i_memcost s))
   else None.
 
-(* which statement an execute function is *)
-Definition exec_stmt (bodies : list (string * stmt)) (name : string) (op : N) : option stmt :=
-  if String.eqb name "makePush" then
-    if (96 <=? op) && (op <=? 127) then Some (SPushCode (op - 95)) else None
-  else if String.eqb name "makeDup" then
-    if (128 <=? op) && (op <=? 143) then Some (SDup (op - 127)) else None
-  else if String.eqb name "makeSwap" then
-    if (144 <=? op) && (op <=? 159) then Some (SSwap (op - 143 + 1)) else None
-  else if String.eqb name "opStop" then Some SSkip
-  else
-    (fix find (l : list (string * stmt)) :=
-       match l with
-       | [] => None
-       | (k, b) :: r => if String.eqb k name then Some b else find r
-       end) bodies.
-Definition pc_extra (name : string) (op : N) : N :=
-  if String.eqb name "makePush" then op - 95 else 0.
+(* the statement an opcode executes.  [bodies] is regenerated: for every opcode
+   whose execute function is translated, the translated body (closures such as
+   makePush(n, n) instantiated with the arguments found in jump_table.go), tagged
+   with the function's name, which must be the one in the jump table entry *)
+Definition exec_stmt (bodies : list (N * (string * stmt))) (name : string) (op : N) : option stmt :=
+  (fix find (l : list (N * (string * stmt))) :=
+     match l with
+     | [] => None
+     | (k, (nm, b)) :: r =>
+       if N.eqb k op then (if String.eqb nm name then Some b else None) else find r
+     end) bodies.
 
 (* the deferred in.intPool.put(stack.data...) *)
 Definition reclaim (s : istate) : istate :=
@@ -537,7 +640,7 @@ Definition reclaim (s : istate) : istate :=
 Definition fail (st : N) (s : istate) : result :=
   Done st (reclaim (mkI (i_cfg s) (i_pc s) 0 (i_memcost s))).   (* evm.Call burns the gas *)
 
-Definition step (tbl : list opinfo) (bodies : list (string * stmt)) (code : list N) (s : istate) : result :=
+Definition step (tbl : list opinfo) (bodies : list (N * (string * stmt))) (code : list N) (s : istate) : result :=
   let c := i_cfg s in
   let op := get_op code (i_pc s) in
   let o := nth (N.to_nat op) tbl op_dummy in
@@ -565,7 +668,7 @@ Definition step (tbl : list opinfo) (bodies : list (string * stmt)) (code : list
   | Some None => fail st_gasuint s
   | Some (Some memory_size) =>
     let dg : option (option (N * N)) :=
-      if o_dyn o then dyn_gas_fn (o_dynname o) s memory_size else Some (Some (0, i_memcost s)) in
+      if o_dyn o then dyn_gas_fn (o_dynname o) s gas1 memory_size else Some (Some (0, i_memcost s)) in
     match dg with
     | None => fail st_unsupported s
     | Some None => fail st_oog s
@@ -577,12 +680,12 @@ Definition step (tbl : list opinfo) (bodies : list (string * stmt)) (code : list
       match exec_stmt bodies (o_exec o) op with
       | None => fail st_unsupported s
       | Some body =>
-        match run_body code (i_pc s) body c1 with
+        match run_body_pc code (i_pc s) body c1 with
         | None => fail st_crash s
-        | Some c2 =>
-          if o_reverts o || o_jumps o || o_returns o || o_writes o then fail st_unsupported s
+        | Some (c2, pc') =>
+          if o_reverts o || o_jumps o || o_returns o then fail st_unsupported s   (* o_writes only matters in read-only mode, which is not modelled *)
           else if o_halts o then Done st_ok (reclaim (mkI c2 (i_pc s) gas2 last'))
-          else Next (mkI c2 (i_pc s + pc_extra (o_exec o) op + 1) gas2 last')
+          else Next (mkI c2 (pc' + 1) gas2 last')
         end
       end
     end
@@ -593,7 +696,7 @@ Definition step (tbl : list opinfo) (bodies : list (string * stmt)) (code : list
 Definition top_val (c : cfg) : Z :=
   match stack c with [] => (-1)%Z | l :: _ => heap c l end.
 
-Fixpoint run (tbl : list opinfo) (bodies : list (string * stmt)) (code : list N)
+Fixpoint run (tbl : list opinfo) (bodies : list (N * (string * stmt))) (code : list N)
          (n : nat) (s : istate) (tops : list Z) : result * list Z :=
   match n with
   | O => (Next s, rev tops)
@@ -618,7 +721,7 @@ Fixpoint seqN (start : N) (n : nat) : list N :=
 Definition init_cfg (globals : list Z) (pool0 : list Z) : cfg :=
   let ng := N.of_nat (length globals) in
   let h := init_heap pool0 ng (init_heap globals 0 (fun _ => 0%Z)) in
-  mkCfg h (ng + N.of_nat (length pool0)) [] (rev (seqN ng (length pool0))) [].
+  mkCfg h (ng + N.of_nat (length pool0)) [] (rev (seqN ng (length pool0))) [] [].
 Definition init_state (globals : list Z) (pool0 : list Z) (gas : N) : istate :=
   mkI (init_cfg globals pool0) 0 gas 0.
 
@@ -707,7 +810,7 @@ Definition cfun_apply (f : cfun) (st : list Z) : option (list Z) :=
   | _, _ => None
   end.
 
-Record pstate := mkP { p_stack : list Z; p_mem : list N; p_pc : N; p_gas : N }.
+Record pstate := mkP { p_stack : list Z; p_mem : list N; p_pc : N; p_gas : N; p_stor : store }.
 Inductive presult :=
 | PNext (s : pstate)
 | PStop (s : pstate)          (* normal halt *)
@@ -734,7 +837,7 @@ Definition spec_apply (s : pstate) (d a : nat) (g : N) (adv : N)
   else if p_gas s <? g then PExc
   else match f tt with      (* evaluated only when the instruction is affordable *)
        | None => PExc
-       | Some (st, m) => PNext (mkP st m (p_pc s + adv) (p_gas s - g))
+       | Some (st, m) => PNext (mkP st m (p_pc s + adv) (p_gas s - g) (p_stor s))
        end.
 
 (* byte values that are not instructions of this instruction set *)
@@ -783,6 +886,18 @@ Definition spec_step (code : list N) (s : pstate) : presult :=
         let '(w', cost) := expand m off 1 in
         spec_apply s 2%nat 0%nat (3 + cost) 1
           (fun _ => Some (r, mem_write (mem_resize m (w' * 32)) (Z.to_nat off) [Z.to_N (v mod 256)]))
+      | _ => PExc
+      end
+    else if op =? 84 then                                                  (* SLOAD *)
+      spec_apply s 1%nat 1%nat 800 1
+        (fun _ => match st with k :: r => Some (st_get (p_stor s) k :: r, m) | [] => None end)
+    else if op =? 85 then                                                  (* SSTORE (EIP-2200 cost, no refunds) *)
+      match st with
+      | k :: v :: r =>
+        let cost := sstore_gas 0 (st_get (p_stor s) k) v in
+        if p_gas s <=? sstore_sentry then PExc
+        else if p_gas s <? cost then PExc
+        else PNext (mkP r m (p_pc s + 1) (p_gas s - cost) (st_set (p_stor s) k v))
       | _ => PExc
       end
     else if op =? 89 then                                                  (* MSIZE *)
@@ -857,12 +972,12 @@ Fixpoint index_of (l : list N) (x : N) (i : N) : N :=
   end.
 Definition alias_ids (l : list loc) : list N := map (fun x => index_of l x 0) l.
 
-Definition run_digest (ok : bool) (tops stack : list Z) (m : list N) : Z :=
+Definition run_digest (ok : bool) (tops stack : list Z) (m : list N) (sr : store) : Z :=
   let d := dlist 7 tops in
-  if ok then dbytes (dlist d stack) m else d.
+  if ok then dlist (dlist (dbytes (dlist d stack) m) (map fst sr)) (map snd sr) else d.
 
 (* the heap model (regenerated bodies + regenerated table) against the observation *)
-Definition heap_ok (tbl : list opinfo) (bodies : list (string * stmt)) (globals : list Z) (c : case) : bool :=
+Definition heap_ok (tbl : list opinfo) (bodies : list (N * (string * stmt))) (globals : list Z) (c : case) : bool :=
   let '(r, tops) := run tbl bodies (c_code c) (S (length (c_code c))) (init_state globals (c_pool c) (c_gas c)) [] in
   match r with
   | Next _ => false
@@ -871,7 +986,7 @@ Definition heap_ok (tbl : list opinfo) (bodies : list (string * stmt)) (globals 
     let pl := rev (pool cf) in
     N.eqb st (c_status c) && N.eqb (i_gas s) (c_gas_left c)
     && Z.eqb (dlist (dlist 11 (map (heap cf) pl)) (map Z.of_N (alias_ids pl))) (c_poolout c)
-    && Z.eqb (run_digest (N.eqb st st_ok) tops (map (heap cf) (stack cf)) (mem cf)) (c_run c)
+    && Z.eqb (run_digest (N.eqb st st_ok) tops (map (heap cf) (stack cf)) (mem cf) (stor cf)) (c_run c)
   end.
 
 (* the specification machine against the observation *)
@@ -887,22 +1002,22 @@ Fixpoint spec_run (code : list N) (n : nat) (s : pstate) (tops : list Z) : presu
     end
   end.
 Definition spec_ok (c : case) : bool :=
-  let '(r, tops) := spec_run (c_code c) (S (length (c_code c))) (mkP [] [] 0 (c_gas c)) [] in
+  let '(r, tops) := spec_run (c_code c) (S (length (c_code c))) (mkP [] [] 0 (c_gas c) []) [] in
   match r with
   | PNext _ => false
   | PStop s =>
     N.eqb (c_status c) st_ok && N.eqb (p_gas s) (c_gas_left c)
-    && Z.eqb (run_digest true tops (p_stack s) (p_mem s)) (c_run c)
+    && Z.eqb (run_digest true tops (p_stack s) (p_mem s) (p_stor s)) (c_run c)
   | PExc =>
     negb (N.eqb (c_status c) st_ok) && N.eqb (c_gas_left c) 0
-    && Z.eqb (run_digest false tops [] []) (c_run c)
+    && Z.eqb (run_digest false tops [] [] []) (c_run c)
   | PUnsupported => true
   end.
 
-Definition case_ok (tbl : list opinfo) (bodies : list (string * stmt)) (globals : list Z) (c : case) : bool :=
+Definition case_ok (tbl : list opinfo) (bodies : list (N * (string * stmt))) (globals : list Z) (c : case) : bool :=
   heap_ok tbl bodies globals c && spec_ok c.
 
-Fixpoint mismatches_from (tbl : list opinfo) (bodies : list (string * stmt)) (globals : list Z)
+Fixpoint mismatches_from (tbl : list opinfo) (bodies : list (N * (string * stmt))) (globals : list Z)
          (i : N) (l : list case) : list N :=
   match l with
   | [] => []
